@@ -369,13 +369,19 @@ func (e *ParserData) AddInvoke(paramsNum IntType) {
 	e.WriteCode(typeInvoke, paramsNum)
 }
 
-func fixCodeByOffset(code []ByteCode, offset int) {
+// fixCodeByOffset 把计算过程标记的位置改为相对于表达式文本。limit >= 0 时是(去掉尾部空白后的)文本长度:
+// 标记的结尾可能包含其后被吞掉的空白，超出文本的标记在生成计算过程时会被整个丢弃
+// ("&a = (2)d(3) 理由" 之后 a 的计算过程少了 (2)d(3) 的细节)，所以截到文本结尾
+func fixCodeByOffset(code []ByteCode, offset int, limit int) {
 	for index, i := range code {
 		switch i.T {
 		case typeDetailMark:
 			v := i.Value.(BufferSpan)
 			v.Begin -= IntType(offset)
 			v.End -= IntType(offset)
+			if limit >= 0 && v.End > IntType(limit) {
+				v.End = IntType(limit)
+			}
 			code[index].Value = v
 		}
 	}
@@ -385,7 +391,7 @@ func (p *ParserData) AddStoreComputed(name string, text string) {
 	// 表达式文本不含其后被吞掉的空白/换行(否则 "&a = e\n理由" 存下的是 "e\n")
 	text = strings.TrimRightFunc(text, unicode.IsSpace)
 	code, length, offset := p.CodePop()
-	fixCodeByOffset(code, offset)
+	fixCodeByOffset(code, offset, len(text))
 	val := NewComputedValRaw(&ComputedData{
 		Expr:      text,
 		code:      code,
@@ -399,7 +405,7 @@ func (p *ParserData) AddStoreComputed(name string, text string) {
 func (p *ParserData) AddStoreComputedOnStack(text string) {
 	text = strings.TrimRightFunc(text, unicode.IsSpace)
 	code, length, offset := p.CodePop()
-	fixCodeByOffset(code, offset)
+	fixCodeByOffset(code, offset, len(text))
 	val := NewComputedValRaw(&ComputedData{
 		Expr:      text,
 		code:      code,
@@ -411,7 +417,7 @@ func (p *ParserData) AddStoreComputedOnStack(text string) {
 
 func (p *ParserData) AddStoreFunction(name string, paramsReversed []string, text string) {
 	code, length, offset := p.CodePop()
-	fixCodeByOffset(code, offset)
+	fixCodeByOffset(code, offset, -1)
 
 	// 翻转一次
 	for i, j := 0, len(paramsReversed)-1; i < j; i, j = i+1, j-1 {
